@@ -72,6 +72,10 @@ package vm
 // Checked where the body hands over to its deferred calls (the deferred script calls and resumeFrame are beyond
 // per-function reach: their net effect on the stack is not decided).
 //@ returnguard[C07.call.sp.error] resultErr != nil ==> vm.sp <= old(vm.sp)
+// Assumed (eval and resumeFrame are beyond per-function reach): a successful call leaves the data stack at the height
+// it found it, a failed one no higher.
+//@ ghostensures resultErr == nil ==> vm.sp == old(vm.sp)
+//@ ghostensures resultErr != nil ==> vm.sp <= old(vm.sp)
 //@ requires[C12.ctx] ctx != nil && hasos(ctx)
 //@ requires vm != nil
 //@ modcomps H_ E_ M G_ C_
@@ -138,11 +142,14 @@ package vm
 
 // callObject: functions go to callFunction, builtins (object.Callable) are called with the same context.
 //@ func (*VirtualMachine).callObject
-//@ props C12
+//@ props C12 C04
 //@ requires[C12.ctx] ctx != nil && hasos(ctx)
 //@ requires vm != nil
+//@ assume[vm.frame.bounds] 0 <= vm.fp && vm.fp < 1023 && -1 <= vm.sp && vm.sp < 1023
 //@ modcomps H_ E_ M G_ C_
 //@ assumeframe
+//@ ensures[C04.vm.callobject.push] err == nil ==> vm.sp == old(vm.sp) + 1
+//@ ensures[C04.vm.callobject.err] err != nil ==> vm.sp <= old(vm.sp)
 
 //@ scan[C09.globals.vm] C09 pkgglobals github.com/risor-io/risor/vm:
 
@@ -237,3 +244,45 @@ package vm
 //@ safety panic
 //@ trusted except panic
 //@ assume[args.wf] ctx != nil
+
+// ---- C04 (VM side): deferred calls are stack-neutral ------------------------------------------------------------
+// callObject pushes exactly one value when it succeeds and none when it fails; the loop that runs a frame's deferred
+// calls pops what a successful deferred call pushed, so running the defers never raises the stack - whatever kind of
+// callable was deferred (a script function, a builtin, a bound method, a partial).
+//@ func (*VirtualMachine).push
+//@ props C04
+//@ requires vm != nil
+//@ assume[vm.stack.bounds] -1 <= vm.sp && vm.sp < 1023
+//@ modifies vm.sp, vm.stack
+//@ ensures[C04.vm.push] vm.sp == old(vm.sp) + 1
+
+//@ func (*VirtualMachine).pop
+//@ props C04
+//@ requires vm != nil
+//@ assume[vm.stack.bounds] 0 <= vm.sp && vm.sp < 1024
+//@ modifies vm.sp, vm.stack
+//@ ensures[C04.vm.pop] vm.sp == old(vm.sp) - 1
+
+// (callObject: the two C04 postconditions are part of its unit above)
+
+//@ func callFunction$1
+//@ props C04
+//@ assume[fv.wf] cap_vm != nil && cap_callFrame != nil && cap_ctx != nil && hasos(cap_ctx) && 0 <= cap_vm.fp && cap_vm.fp < 1023 && -1 <= cap_vm.sp && cap_vm.sp < 1023
+//@ modcomps H_ E_ M G_ C_
+//@ assumeframe
+//@ invariant 1: cap_vm.sp <= old(cap_vm.sp)
+//@ ensures[C04.vm.defers.neutral] cap_vm.sp <= old(cap_vm.sp)
+
+// ---- C01 / C02 (every activation has its own local variables) -------------------------------------------------------
+// A frame slot is reused for every call at that depth, and CaptureLocals hands the frame's extendedLocals slice
+// itself (uncopied) to closure cells. The storage of one activation must therefore never be reused for the next:
+// ActivateCode gives a function with more than DefaultFrameLocals locals a freshly allocated slice, all nil, and
+// otherwise clears the frame's inline storage and drops the reference to any earlier slice.
+//@ func (*frame).ActivateCode
+//@ props C01
+//@ requires f != nil && code != nil
+//@ assume[code.wf] code.Code != nil
+//@ invariant 1: true
+//@ ensures[C01.frame.locals.fresh] f.localsCount > DefaultFrameLocals ==> fresh(f.extendedLocals) && len(f.extendedLocals) == int(f.localsCount) && same(f.locals, f.extendedLocals) && forall(k, 0, len(f.locals), f.locals[k] == nil)
+//@ ensures[C01.frame.locals.inline] f.localsCount <= DefaultFrameLocals ==> len(f.extendedLocals) == 0 && cap(f.extendedLocals) == 0
+//@ ensures[C01.frame.captured.reset] len(f.capturedLocals) == 0 && cap(f.capturedLocals) == 0
